@@ -200,7 +200,7 @@ pub fn run(ctx: &Ctx) -> i32 {
     }
     ev.exhaustive = Some(false);
     ev.set("exhaustive_subspaces", json!(fams.iter().map(|f| format!("{f:?}")).collect::<Vec<_>>()));
-    let cases = ctx.tier.pick(200_000u32, 2_000_000u32);
+    let cases = ctx.tier.pick(400_000u32, 2_000_000u32);
     for p in profiles() {
         let out = prop::run_prop("C14", ctx.tier, ctx.seed, p.name, cases / 5, ctx.threads, if p.name == "big" { 900 } else { 400 }, |stream, ev| {
             let g = ggen::build(&p, stream);
